@@ -33,7 +33,7 @@ RULE = ("per run one BEC2 file: non-empty ordered subset of {customer-key, ECC(s
 REAL = ["bec2format.bec2file (Bec2File, auth blocks, encryptors)", "bec2format.bf3file", "bec2format.crypto registry",
         "register_crypto_plugin (AES adapter, ECC proxies)", "pyaes", "ecdsa"]
 STUBS = ["medium: SimFS", "RNG: SimRng behind register_random_bytes and os.urandom shims"]
-PROBES = ["runs-with-assertions-disabled", "writer-list-reused-for-reading", "encrypt-only-entry-in-decryptor-list", "same-object-second-recipient",
+PROBES = ["runs-with-assertions-disabled", "user-defined-ecc-decryptor", "writer-list-reused-for-reading", "encrypt-only-entry-in-decryptor-list", "same-object-second-recipient",
           "write-after-crashed-attempt", "write-after-failed-attempt", "keystore-arm", "writer-keystore", "session-key-trailing-zero", "crc-low-byte-zero", "crc-high-byte-zero", "key-drawn-from-rng",
           "three-blocks", "subset-leaves-block-opaque", "wrong-key-arm-raised", "wrong-key-arm-returned",
           "encrypted-config", "default-recipient-ecc", "customer-key-present"]
@@ -250,6 +250,41 @@ def run(case):
                 diff = files.compare_read("bec2", w, got, with_key=True)
                 if diff:
                     out.fail("C02.read-differs", "second-recipient-" + diff[0], diff[1], dict(case))
+        # hardware-unit arm: the ECC decryptor is the caller's own subclass of EccEncryptor with a decrypt() of
+        # its own (the documented extension point), not the stock test class
+        eccd = [(i, b) for i, b in enumerate(case["blocks"]) if b["t"] == "ecc" and i in w.decryptors]
+        if eccd and case.get("only_subset") is None:
+            nev += 1
+            i, b = eccd[0]
+            inner = w.decryptors[i]
+
+            class HsmEcc(bf.EccEncryptor):
+                def __init__(self, key_selector, public_key, unit):
+                    super().__init__(key_selector, public_key)
+                    self._unit = unit
+
+                def decrypt(self, ciphertext):
+                    return self._unit.decrypt(ciphertext)
+            hsm = HsmEcc(b["sel"], inner.public_key, inner)
+            fs.restart()
+            out.probes["user-defined-ecc-decryptor"] += 1
+            try:
+                got = files.read_file("bec2", fs, env, name, "path", True, None,
+                                      [hsm] + [w.decryptors[j] for j in able if j != i])
+            except SimCrash:
+                raise
+            except Exception as e:
+                out.fail("C02.read-raises", "hsm-%s@%s" % (type(e).__name__, exc_site(e)),
+                         "reading with a user-defined ECC decryptor (subclass of EccEncryptor with its own decrypt) "
+                         "raised %s: %s" % (type(e).__name__, e), dict(case))
+            else:
+                diff = files.compare_read("bec2", w, got, with_key=True)
+                blk = list(got.auth_blocks.values())[i] if len(got.auth_blocks) > i else None
+                if diff:
+                    out.fail("C02.read-differs", "hsm-" + diff[0], diff[1], dict(case))
+                elif type(blk) is not bf.InitEccAuthBlock:
+                    out.fail("C02.blocks-differ", "hsm-ecc-not-opened", "the ECC block was not opened by the "
+                             "user-defined decryptor: %r" % (blk,), dict(case))
         # key-store arm: decryptors for the other key selectors (unrelated keys) listed before the
         # matching ones - "given matching decryptors" still holds
         eccs = [b for b in case["blocks"] if b["t"] == "ecc"]
